@@ -91,7 +91,8 @@ DEFAULT = dict(
     negBucketCmp='lt', gsumNegCmp='lt', exemplarMaxLen=0, exemplarLenCmp='gt', kwHelp='', kwType='', kwUnit='',
     infoCmp='ne', infoValue=0, statesetValues=[], unitForbidden=[], tsOrderExempt=[], metricTypes=[],
     histTypes=[], untyped='', summaryNegCmp='lt', nhStructCatchesKeyError=False, nhSkipsChecks=False,
-    nhSuffixRecheck=False, tsCoerce=False, nanGuardsFloat=False, leNaNNumeric=False)
+    nhSuffixRecheck=False, tsCoerce=False, nanGuardsFloat=False, leNaNNumeric=False, tsOverflowFallback=False,
+    histSkipsNh=False)
 
 
 def _emit(ok, v, whys):
@@ -145,6 +146,8 @@ def _emit(ok, v, whys):
                    ('nhSkipsChecks', "`if is_nh: samples.append(sample); continue` before the per-sample checks"),
                    ('nhSuffixRecheck', "second `if name.endswith(suffixes): raise` after the name is taken from the labels"),
                    ('tsCoerce', "`if not isinstance(other, Timestamp): return float(self) > other` (and `<`) in samples.Timestamp"),
+                   ('tsOverflowFallback', "`try: return float(self) > other / except OverflowError: return self.sec > other` (and `<`)"),
+                   ('histSkipsNh', "`if s.native_histogram is not None: continue` as the first statement of the loop of _check_histogram"),
                    ('nanGuardsFloat', "`isinstance(sample.value, float) and math.isnan(sample.value)`"),
                    ('leNaNNumeric', "`math.isnan(float(sample.labels.get('le', \"NaN\")))` instead of the spelling test `== \"NaN\"`")):
         out += '/-- %s -/\ndef %s : Bool := %s\n' % (doc, k, 'true' if v[k] else 'false')
@@ -433,15 +436,30 @@ def generate(repo):
             body_ = [ast.unparse(x) for x in f.body]
             last = 'return self.nsec %s other.nsec if self.sec == other.sec else self.sec %s other.sec' % (op, op)
             guard = 'if not isinstance(other, Timestamp):\n    return float(self) %s other' % op
-            if body_ == [guard, last]:
-                res.append(True)
+            guard_try = ('if not isinstance(other, Timestamp):\n    try:\n        return float(self) %s other\n'
+                         '    except OverflowError:\n        return self.sec %s other' % (op, op))
+            if body_ == [guard_try, last]:
+                res.append((True, True))
+            elif body_ == [guard, last]:
+                res.append((True, False))
             elif body_ == [last]:
-                res.append(False)
+                res.append((False, False))
             else:
                 raise Fail('Timestamp.%s changed: %s' % (meth, ' / '.join(body_).replace('\n', ' ')))
         if res[0] != res[1]:
             raise Fail('Timestamp.__gt__ and __lt__ differ in their coercion')
-        v['tsCoerce'] = res[0]
+        v['tsCoerce'], v['tsOverflowFallback'] = res[0]
+        # _check_histogram: native histogram samples skipped at the top of the loop
+        hloops = [n for n in hist.body if isinstance(n, ast.For) and ast.unparse(n.target) == 's']
+        if len(hloops) != 1:
+            raise Fail('_check_histogram: sample loop not found')
+        first = ast.unparse(hloops[0].body[0])
+        if first == 'if s.native_histogram is not None:\n    continue':
+            v['histSkipsNh'] = True
+        elif first == 'suffix = s.name[len(name):]':
+            v['histSkipsNh'] = False
+        else:
+            raise Fail('_check_histogram: head of the sample loop changed: %s' % first.replace('\n', ' '))
         fl = find_func(smp, '__float__', cls='Timestamp')
         if [ast.unparse(x) for x in fl.body] != ['return float(self.sec) + float(self.nsec) / 1000000000.0']:
             raise Fail('Timestamp.__float__ changed')
